@@ -650,6 +650,26 @@ _add("C08", rule="(API) must-deliver is suspended only when an upper bound of th
 _add("C19", rule="an assertion made before the waker's current attachment counts: a waker stays asserted across Done and AddWaker")
 
 
+# wave 10
+_add("C01", rule="truncation is judged the moment Read reports end-of-stream: by then everything the writer's writes had accepted before it shut down "
+     "has to have been returned (eof-before-data); writes of zero bytes; receive buffers enlarged by the application mid-run",
+     probes=["writes_of_no_bytes", "receive_buffers_enlarged"])
+_add("C02", rule="'without error when nothing is lost': in a run whose wire never dropped, duplicated, delayed, reordered or refused a frame, on a connection "
+     "that no application closed with data still owed in either direction, no socket may report an error (error-without-loss); writes of zero "
+     "bytes; receive buffers enlarged mid-run; the final verdict lets every application look at its socket once more (a handshake given up in "
+     "silence is an explicit failure)",
+     probes=["runs_without_any_fault", "writes_of_no_bytes", "receive_buffers_enlarged"])
+_add("C04", rule="(sender role) the scripted receiver's earlier ACKs are delivered again behind newer ones: they offer nothing new, the largest right edge "
+     "ever offered stays what it was (finding F28)", probes=["stale_acks_delivered_again"])
+_add("C06", rule="(neighbour scenario) ARP requests relayed by a bridge (the frame's source differs from the ARP sender field); what a reply says and whom "
+     "it names as target are judged under C06 as well (reply-wrong-addressee, reply-wrong-content)",
+     probes=["arp_requests_through_a_relay"])
+_add("C10", rule="(netsim:demux) a fifth of the TCP listeners are IPv6 sockets bound to the IPv4-mapped form of the address (::ffff:a.b.c.d, ::ffff:0.0.0.0): "
+     "they reserve exactly what the IPv4 socket bound to a.b.c.d would", probes=["tcp_listeners_bound_to_a_mapped_ipv4_address"])
+_add("C12", rule="two goroutines sending to one next hop at the same moment (two first lookups race); ARP requests relayed by a bridge",
+     probes=["two_sends_to_one_next_hop_at_the_same_moment", "arp_requests_through_a_relay"])
+
+
 PENDING = "check not built yet (work in progress; will be claimed once its simulation exists)"
 NOT_APPLICABLE = {
     "C15": "pure functions of their input (header codecs, RFC 1071 checksum): no schedule, clock, fault, I/O or second party for a simulator to control; "
